@@ -224,6 +224,8 @@ def run(ctx):
     ok = ctx.proof_step(PROPS_FILE)
     run_direct(ctx)
     run_e2e(ctx)
+    from vlib import regress
+    regress.search(ctx, {"C05"})          # the shape-agnostic search step (DESIGN.md 12.8)
     replay_findings(ctx)
     from vlib.valuecheck import replay_findings as rf
     rf(ctx)
